@@ -439,6 +439,7 @@ static iwrc _rollforward_exl(struct iwal *wal, IWFS_EXT *extf, int recover_mode)
   if (wmm == MAP_FAILED) {
     return iwrc_set_errno(IW_ERROR_ERRNO, errno);
   }
+  uint8_t *const wmm_base = wmm; // wmm is advanced to a reset mark / rollforward offset below
   // Temporary turn off extf locking
   wal->applying = true;
 
@@ -446,7 +447,7 @@ static iwrc _rollforward_exl(struct iwal *wal, IWFS_EXT *extf, int recover_mode)
   extf->remove_mmap_unsafe(extf, 0);
   rc = extf->add_mmap_unsafe(extf, 0, SIZE_T_MAX, IWFS_MMAP_SHARED);
   if (rc) {
-    munmap(wmm, (size_t) pfsz);
+    munmap(wmm_base, (size_t) pfsz);
     wal->iwkv->fatalrc = rc;
     wal->applying = false;
     return rc;
@@ -602,7 +603,7 @@ finish:
   if (!rc) {
     rc = extf->sync_mmap_unsafe(extf, 0, IWFS_SYNCDEFAULT);
   }
-  munmap(wmm, (size_t) pfsz);
+  munmap(wmm_base, (size_t) pfsz);
   IWRC(extf->remove_mmap_unsafe(extf, 0), rc);
   IWRC(extf->add_mmap_unsafe(extf, 0, SIZE_T_MAX, IWFS_MMAP_PRIVATE), rc);
   if (!rc) {
